@@ -46,11 +46,12 @@ ASSUMPTIONS = [
     "CPython 3.12 asyncio FIFO ready queue; one step = one `await asyncio.sleep(0)` of the driver",
     "the 20-line sequential model in this file and the history invariants are the specification",
 ]
-MINIMUMS = {"handoff_while_pending": 100, "cancel_after_handoff": 10, "monitor:model": 1000, "monitor:drain": 1000}
+MINIMUMS = {"handoff_while_pending": 100, "cancel_after_handoff": 10, "monitor:model": 1000, "monitor:drain": 1000, "long_backlog_drains": 60}
 JOBS = {"quick": 4, "thorough": 16}
 
 OPS = ("E1", "E3", "F", "FX", "C", "R", "X", "S")
 EXH_LEN = {"quick": 5, "thorough": 8}
+BACKLOG = {"quick": 64, "thorough": 4000}
 RANDOM_CASES = {"quick": 6000, "thorough": 400_000}
 
 
@@ -326,6 +327,8 @@ def judge(R: Recorder, run: _Run, mode: str, initial: int, seq: tuple[str, ...],
         R.count("handoff_while_pending")
     if run.cancel_after_handoff:
         R.count("cancel_after_handoff")
+    if initial >= 17:
+        R.count("long_backlog_drains")
     R.count("receives_completed", len(run.recv_log))
     R.count("elements_enqueued", len(run.enqueued))
     R.distinct("model_states", (tuple(repr(x) for x in tuple(run.m_buf)[:4]), run.reason_kind, run.m_pending, len(run.received)))
@@ -364,6 +367,18 @@ def _cases(tier: str, seed: int, shard: int, nshards: int):  # noqa: ANN202
                 yield "racy", 0, seq, "exc"
                 yield "settled", 1, seq, "mixed"
     rng = random.Random(f"C17/{seed}/{shard}")
+    # long backlog drains: 17-48 buffered elements received back to back (R S cycles), a cancellation attempted right after
+    # the step of some cycles (inapplicable - and dropped - whenever that receive already completed), a few enqueues in between
+    for k in range(BACKLOG[tier] // nshards + 1):
+        initial = 17 + (k * 7 + shard) % 32 if k < 8 else rng.randint(17, 48)
+        seq_l: list[str] = []
+        for _ in range(initial + rng.randint(-3, 6)):
+            seq_l += ["R", "S"] if rng.random() < 0.9 else ["R"]
+            if k < 8 or rng.random() < 0.5:
+                seq_l.append("X")
+            if rng.random() < 0.1:
+                seq_l.append(rng.choice(("E1", "E3", "S")))
+        yield "racy", initial, tuple(seq_l), rng.choice(("int", "int", "mixed"))
     weights = {"E1": 4, "E3": 2, "F": 1, "FX": 1, "C": 1, "R": 5, "X": 3, "S": 4}
     ops, w = list(weights), list(weights.values())
     for _ in range(RANDOM_CASES[tier] // nshards):
